@@ -559,7 +559,7 @@ def qual_strategy(specials=True, allow_comma=True, allow_dquote=True, lookalikes
 
 @st.composite
 def strat_syntax(draw, tier="quick"):
-    o = draw(S.collection_spec(max_genes=2, max_fcs=2, with_variants=False, region_step=30))
+    o = draw(S.collection_spec(max_genes=2, max_fcs=2, with_variants=False, region_step=30, feat_kw={"unstranded_prob": 5}, tx_kw={"unstranded_gene_prob": 6}))
     hi = o.pop("hi")
     o.pop("variant_collections", None)
     reserved = draw(st.integers(0, 7)) == 0
@@ -598,7 +598,7 @@ def strat_reparse(draw, tier="quick"):
     qs = qual_strategy(allow_comma=False, allow_dquote=False, reserved=False, max_keys=2)
     for i in range(ng):
         coding = draw(st.sampled_from([True, True, False]))
-        g = draw(S.gene_spec(max_tx=3, max_exons=3, max_len=8, region=[i * draw(st.sampled_from([0, 6, 30])), 0], frameshift_prob=10, cds_overlap_prob=8))
+        g = draw(S.gene_spec(max_tx=3, max_exons=3, max_len=8, region=[i * draw(st.sampled_from([0, 6, 30])), 0], frameshift_prob=10, cds_overlap_prob=8, unstranded_gene_prob=8))
         g["gene_id"] = "gene%d" % i
         g["gene_symbol"] = "SYM%d%s" % (i, draw(st.text(alphabet="abc ;=%", max_size=3)))
         g["gene_type"] = draw(st.sampled_from(["protein_coding", "ncRNA", "lncRNA", "pseudogene"]))
